@@ -8,7 +8,9 @@
 (*   the object; the recursion placeholder appears exactly for self-referential         *)
 (*   containers; SatX / ChkX coincide with Semantics' Sat / Chk on Semantics' universe. *)
 (*   Rows (object, Infer under On and under O1 per residue, predicted round-trip        *)
-(*   verdict per residue) are emitted per chunk for the replay into the real code.      *)
+(*   verdict per residue) are emitted, one file per object, for the replay into the     *)
+(*   real code.  Everything the spec says about an object is computed ONCE, in the      *)
+(*   transition that picks it (variable fx); the invariants only read fx.               *)
 (* Mode = "fsm": state = (method set, automaton node); the automaton of                 *)
 (*   infercollectionsabc.py runs as TLA+ transitions over all unions of its transition  *)
 (*   labels; invariants: deterministic (both lookup paths of the code agree), total,    *)
@@ -49,7 +51,7 @@ D1Seq   == { Cont(c, s) : c \in SeqLikeCls, s \in SeqsUpTo(ItemAtoms, LL) }
 D1Set   == { Cont(c, s) : c \in SetLikeCls, s \in { t \in SeqsUpTo(ItemAtoms, LL) : Distinct(t) } }
 D1Range == { Cont("range", [i \in 1..n |-> Atom("int", i - 1)]) : n \in 0..LL }
 D1Iter  == { Iter(c, s) : c \in IterCls, s \in {<<>>, <<i1>>} }
-MapVals == IF Tiny THEN {i1, sa, eA} ELSE ItemAtoms \ {f1}
+MapVals == CASE Tiny -> {i1, sa, eA} [] Tier = "quick" -> {i1, sa, none, ob, eA, fn} [] OTHER -> ItemAtoms \ {f1}
 D1Map   == { Map(c, s) : c \in MapLikeCls, s \in { t \in SeqsUpTo(Pairs(KeyAtoms, MapVals), 2) : KeyDistinct(t) } }
            \cup { Map("Counter", s) : s \in { t \in SeqsUpTo(Pairs(KeyAtoms, {i1, i2, sa}), 2) : KeyDistinct(t) } }
 Tup2(S, T) == { Cont("tuple", <<a, b>>) : a \in S, b \in T }
@@ -77,9 +79,10 @@ D2SeqCls == IF Tier = "quick" THEN {"list", "tuple", "USeq"} ELSE {"list", "tupl
 D2Seq == { x \in { Cont(c, s) : c \in D2SeqCls, s \in SeqsUpTo(Items2, 2) } :
              WellFormed(x, <<>>) /\ ODepth(x) >= 1 }
 D2Set == { Cont(c, s) : c \in {"set", "USet"}, s \in { t \in SeqsUpTo(InnerHashable \cup {i1}, 2) : Distinct(t) } }
-D2Map == { x \in { Map(c, s) : c \in {"dict", "UMap", "OrderedDict", "DMap", "UMapNe"},
-                               s \in { t \in SeqsUpTo(Pairs({sa, i1}, Items2), IF Tier = "thorough" THEN 2 ELSE 1) :
-                                        KeyDistinct(t) } } : WellFormed(x, <<>>) }
+D2MapSeqs(n) == { t \in SeqsUpTo(Pairs({sa, i1}, Items2), n) : KeyDistinct(t) }
+D2Map == { x \in { Map(c, s) : c \in {"UMap", "DMap", "UMapNe"}, s \in D2MapSeqs(1) }
+                  \cup { Map(c, s) : c \in {"dict", "OrderedDict"}, s \in D2MapSeqs(IF Tier = "thorough" THEN 2 ELSE 1) } :
+             WellFormed(x, <<>>) }
          \cup { Map("dict", <<KV(k, v)>>) : k \in InnerHashable, v \in {i1, sa} }
 \* depth 3 (restricted): nested back-references across several levels, X-class objects two levels down
 Mid3 == { Cont("list", <<Cont("list", <<Back(3)>>)>>), Cont("tuple", <<Cont("list", <<Back(3), i1>>)>>),
